@@ -86,6 +86,17 @@ def run(prop, units, results, seed):
                 violations.append(d)
         except Exception as e:  # build problems are infrastructure, never alarms
             undecided.append("boundary differential could not run: %r" % (e,))
+    if prop == "C06":
+        try:
+            from . import cesearch
+
+            tr = cesearch.transfer_grid()
+            cov["transfer_differential"] = {"bounded": True, "values": tr["calls"], "disagreements": len(tr["disagreements"]),
+                                            "rule": "structured values (nested tuples, closures with captures, binaries of several rope shapes, shared binaries) built in one heap, extract_heap_data, inject_heap_data into another populated heap on the REAL code; both ends must render identically and the receiver's own binaries stay untouched; BOUNDED, a validation of the transfer contracts' reading of the code and the stand-in when unit transfer is undecided"}
+            for d in tr["disagreements"]:
+                violations.append(d)
+        except Exception as e:
+            undecided.append("transfer differential could not run: %r" % (e,))
     if prop in ("C06", "C13", "C16"):
         try:
             from . import progsearch
